@@ -1,7 +1,7 @@
 #!/bin/sh
 # tools/suite_on_seed.sh ID...  - run the repository's complete unedited suite inside each seeded worktree (sequentially), log to /tmp/seeded/ID/suite.log
 for ID in "$@"; do
-  WT=/tmp/wt/$ID
-  (cd "$WT" && PYTHONPATH="$WT" /venv/bin/python -m pytest -q -p no:cacheprovider --timeout=900 toqito > /tmp/seeded/$ID/suite.log 2>&1)
-  echo "$ID: $(tail -1 /tmp/seeded/$ID/suite.log)" >> /tmp/seeded/suites_done.txt
+  WT=/tmp/wt$ROUND/$ID
+  (cd "$WT" && PYTHONPATH="$WT" /venv/bin/python -m pytest -q -p no:cacheprovider --timeout=900 toqito > /tmp/seeded$ROUND/$ID/suite.log 2>&1)
+  echo "$ID: $(tail -1 /tmp/seeded$ROUND/$ID/suite.log)" >> /tmp/seeded$ROUND/suites_done.txt
 done
